@@ -18,6 +18,12 @@
     hashmodzip <path> <version> <rels> <contents>   HashZip of zip.Create's archive for these files
     hashunzip <path> <version> <rels> <contents>    HashDir (prefix path@version) of the directory zip.Unzip extracts that archive to
     sha256 <bytes>                                the executable SHA-256 the driver links
+    after <read|crc> <fnames> <fcontents> <bad> <k> <together> <hash1|hashzip|hashdir> <prefix> <names> <contents>
+                                                  a two-call history, output `<first> <second>`: first Hash1 (read) / HashZip (crc) on
+                                                  (fnames, fcontents) where reading the file `bad` fails (after k bytes / at the CRC
+                                                  check: one error kind with open failures, so k and together do not matter here),
+                                                  then Hash1 / HashZip / HashDir(prefix) on (names, contents): the model has no state,
+                                                  the second result is that of the single-call op
 -/
 import ModVerif.Drv.Util
 import ModVerif.Basic.Sha256
@@ -100,6 +106,20 @@ def handle : Handler
       let path ← hx path; let ver ← hx ver; let rels ← hxList rels; let cs ← hxList cs
       pure (showRes (hashUnzipped sha path ver (rels.zip cs)))
   | "sha256", [b] => do let b ← hx b; pure (xh (sha b))
+  | "after", [k1, fns, fcs, bad, _k, _together, k2, pfx, ns, cs] => do
+      let fns ← hxList fns; let fcs ← hxList fcs; let bad ← hx bad
+      let pfx ← hx pfx; let ns ← hxList ns; let cs ← hxList cs
+      let fpairs := fns.zip fcs
+      let r1 ←
+        if k1 == "read" then some (hash1 sha fns (fun n => if n == bad then none else openPairs fpairs n))
+        else if k1 == "crc" then some (hash1 sha (hashZipNames fpairs) (fun n => if n == bad then none else lookupLast fpairs n))
+        else none
+      let r2 ←
+        if k2 == "hash1" then some (hash1 sha ns (openPairs (ns.zip cs)))
+        else if k2 == "hashzip" then some (hashZip sha (ns.zip cs))
+        else if k2 == "hashdir" then some (hashDir sha (.dir (ns.zip cs)) pfx)
+        else none
+      pure (showRes r1 ++ " " ++ showRes r2)
   | _, _ => none
 
 end ModVerif.Drv.Dirhash
